@@ -125,6 +125,12 @@ def check(run):
             os.makedirs(scratch, exist_ok=True)
         from jugverif import procmode
         procmode.kill_family(run, rng, n=1 if quick else 10)
+        # keep-alive backend, real processes: the orphan lock of a killed worker - by then old enough to count as failed - must go with
+        # `cleanup --locks-only` like any other lock, and the recovery run must complete
+        from jugverif.props import c19
+        c19.dead_worker_cleanup(run, 1800, mode='locks-only')
+        from jugverif import storecheck as _S
+        _S.many_keys_lock_cleanup(run)
         if drv is not None and run.corr_disagreements == 0:
             run.obligation('trace validation: %d real histories with killed workers and recovery (%d events) accepted by the Lean model' % (run.counts.get('traces_validated', 0), run.counts.get('trace_events_validated', 0)), True)
     finally:
